@@ -190,10 +190,10 @@ def classify(case: dict, res: dict) -> list[tuple[str | None, str, dict]]:
         elif kind == "import" and feats["mutual_refs"] and ("partially initialized module" in msg or "circular import" in msg
                                                                or "No module named" in msg or "cannot import name" in msg):
             fid = "F2"
-        elif (kind == "syntax" and "duplicate argument" in msg or kind == "import" and "duplicate argument" in msg) and feats["dup_params"]:
-            fid = "F4"
         elif kind == "import" and feats["shadowing_props"] and ("is not callable" in msg or "object is not subscriptable" in msg or "has no attribute" in msg or "NameError" in msg or "TypeError" in msg):
             fid = "F5"
+        # F4 (a parameter declared at path level and again at operation level -> duplicate argument) is repaired: `dup_params` stays in the
+        # features for the record, a recurrence is a violation
         out.append((fid, f"{kind} {where}: {msg}", {"kind": kind, "where": where, "msg": msg, "features": feats}))
     return out
 
@@ -228,7 +228,73 @@ def make_cases(ctx, r) -> list[dict]:
         hist = [prev] if i % 4 else [prev, doc]
         cases.append({"id": f"hist-{i}", "stream": "history", "doc": doc, "history": hist, "wipe_between": (i % 5 == 4), "package": pkg, "core": core,
                       "strategy": STRATEGIES[i % 3]})
+    # the former witnesses of repaired findings (F4: a parameter declared at path level AND at operation level; F5: an optional property
+    # `field` before an array property) and the same features injected into generated documents: always run, a failure is a violation
+    for fid in FORMER:
+        cases.append({"id": f"former-{fid}", "stream": "former-witness", "doc": witness_doc(fid), "package": "pkg.client", "core": None,
+                      "strategy": "operationId"})
+    n_inj = ctx.budget(8, 60)
+    for i in range(n_inj):
+        rr = rng(f"C01:inject:{i}")
+        o = gs.Opts(mainstream=True, defaults=(i % 2 == 0), path_level_params=True, cookie_params=(i % 3 == 0), array_params=(i % 4 == 1))
+        doc = gs.gen_spec(rr, o)
+        kinds = []
+        if i % 2 == 0 and inject_param_override(doc, rr):
+            kinds.append("override")
+        if i % 2 == 1 or i % 4 == 0:
+            if inject_field_property(doc, rr):
+                kinds.append("field")
+        if not kinds:
+            continue
+        pkg, core = LAYOUTS[i % len(LAYOUTS)]
+        cases.append({"id": f"inject-{i}-{'+'.join(kinds)}", "stream": "former-witness", "doc": doc, "package": pkg, "core": core,
+                      "strategy": STRATEGIES[i % 3]})
     return cases
+
+
+FORMER = ("F4",)       # repaired findings whose witnesses stay in the case list
+
+
+def inject_param_override(doc: dict, rr) -> bool:
+    """Declare one parameter of an operation at path level too (same name, same `in`; the path-level copy with another schema or
+    `required`): OpenAPI's override.  -> False when no operation of the document has an inline parameter."""
+    import copy
+    cands = []
+    for p, item in doc.get("paths", {}).items():
+        if not isinstance(item, dict):
+            continue
+        for m, op in item.items():
+            if m == "parameters" or not isinstance(op, dict):
+                continue
+            for q in op.get("parameters", []):
+                if isinstance(q, dict) and "$ref" not in q and "name" in q:
+                    cands.append((item, q))
+    if not cands:
+        return False
+    item, q = rr.choice(cands)
+    c = copy.deepcopy(q)
+    if rr.random() < 0.5 and c.get("in") != "path":
+        c["schema"] = {"type": "integer"}
+        c["required"] = not c.get("required", False)
+    pl = item.setdefault("parameters", [])
+    if any(isinstance(x, dict) and x.get("name") == c["name"] and x.get("in") == c.get("in") for x in pl):
+        return True
+    pl.append(c)
+    return True
+
+
+def inject_field_property(doc: dict, rr) -> bool:
+    """Give one object schema an OPTIONAL property `field` (or a spelling that sanitises to it) and an array property after it."""
+    objs = [s for s in doc.get("components", {}).get("schemas", {}).values()
+            if isinstance(s, dict) and s.get("type") == "object" and isinstance(s.get("properties"), dict) and "allOf" not in s]
+    if not objs:
+        return False
+    s = rr.choice(objs)
+    s["properties"][rr.choice(["field", "field", "Field", "FIELD"])] = rr.choice([{"type": "string"}, {"type": "integer", "default": 3}, {"type": "boolean"}])
+    s["properties"]["labels"] = {"type": "array", "items": {"type": "string"}}
+    if "required" in s:
+        s["required"] = [k for k in s["required"] if k not in ("field", "Field", "FIELD", "labels")]
+    return True
 
 
 WITNESSES = {
